@@ -9,8 +9,10 @@ import (
 	"os"
 	"os/signal"
 	"path/filepath"
+	"runtime"
 	"strings"
 	"sync"
+	"sync/atomic"
 	"syscall"
 	"time"
 
@@ -29,6 +31,16 @@ type save2In struct {
 	P, N     *WTable // P == nil: no previous save in this process
 	Rlimit   uint64  // >0: soft RLIMIT_FSIZE during the second save (real short write, EFBIG)
 	Observe  bool    // record the bytes of the offsets file at every protocol point of the second save
+
+	// faults counted from the beginning of the SECOND save (independent of how
+	// many times the first save passed the point); used by the large-table matrix
+	ErrPoint   string // Err point that reports an injected failure ...
+	ErrNth     int    // ... at its ErrNth hit within the second save (1-based) ...
+	ErrCount   int    // ... ErrCount times in a row (0 = once, <0 = every hit from then on)
+	CrashPoint string // point at which the process kills itself ...
+	CrashNth   int    // ... at its CrashNth hit within the second save
+	LockThread bool   // run on one locked OS thread (strace counts injected syscalls per thread)
+	ObserveSum bool   // like Observe, but the offsets file is written to <Cur>.obs-<k> instead of being returned
 }
 
 type obs struct {
@@ -40,12 +52,17 @@ type obs struct {
 type save2Out struct {
 	Hits     map[string]int64
 	Observed []obs
+	HitsN    map[string]int64 // hits during the second save only
+	Injected int              // how many times the ErrPoint fault was delivered
 }
 
 func childSave2(raw json.RawMessage, io *core.ChildIO) (any, error) {
 	var in save2In
 	if err := json.Unmarshal(raw, &in); err != nil {
 		return nil, err
+	}
+	if in.LockThread {
+		runtime.LockOSThread()
 	}
 	db := file.VerifNewOffsetDB(in.Cur, in.Tmp)
 	if in.P != nil {
@@ -67,6 +84,53 @@ func childSave2(raw json.RawMessage, io *core.ChildIO) (any, error) {
 			verifhook.ArmErr(p, func(e error) error { look(p); return e })
 		}
 	}
+	if in.ObserveSum {
+		var mu sync.Mutex
+		look := func(p string) {
+			mu.Lock()
+			defer mu.Unlock()
+			b, err := os.ReadFile(in.Cur)
+			k := len(out.Observed)
+			if err == nil {
+				_ = os.WriteFile(fmt.Sprintf("%s.obs-%d", in.Cur, k), b, 0o600)
+			}
+			out.Observed = append(out.Observed, obs{Point: p, Exists: err == nil})
+		}
+		for _, p := range fileSavePoints {
+			p := p
+			verifhook.Arm(p, func() { look(p) })
+			verifhook.ArmErr(p, func(e error) error { look(p); return e })
+		}
+	}
+	var injected atomic.Int64
+	if in.ErrPoint != "" {
+		var n atomic.Int64
+		verifhook.ArmErr(in.ErrPoint, func(e error) error {
+			k := int(n.Add(1))
+			if k < in.ErrNth || (in.ErrCount >= 0 && k > in.ErrNth+max(in.ErrCount, 1)-1) {
+				return e
+			}
+			injected.Add(1)
+			return fmt.Errorf("verifhook: injected failure at %s (hit %d of this save)", in.ErrPoint, k)
+		})
+	}
+	if in.CrashPoint != "" {
+		var n atomic.Int64
+		kill := func() {
+			if int(n.Add(1)) == in.CrashNth {
+				fmt.Fprintf(os.Stderr, "verifhook: crash at %s (hit %d of this save)\n", in.CrashPoint, in.CrashNth)
+				verifhook.Crash()
+			}
+		}
+		verifhook.Arm(in.CrashPoint, kill)
+		verifhook.ArmErr(in.CrashPoint, func(e error) error { kill(); return e })
+	}
+	before := verifhook.Snapshot()
+	if in.TmpN != "" {
+		db.SetFiles(in.Cur, in.TmpN)
+	}
+	io.Log(map[string]string{"step": "save N"})
+	tbl := in.N.toReal()
 	var old syscall.Rlimit
 	if in.Rlimit > 0 {
 		signal.Ignore(syscall.SIGXFSZ)
@@ -77,15 +141,18 @@ func childSave2(raw json.RawMessage, io *core.ChildIO) (any, error) {
 			return nil, err
 		}
 	}
-	if in.TmpN != "" {
-		db.SetFiles(in.Cur, in.TmpN)
-	}
-	io.Log(map[string]string{"step": "save N"})
-	db.Save(in.N.toReal())
+	db.Save(tbl)
 	if in.Rlimit > 0 {
 		_ = syscall.Setrlimit(syscall.RLIMIT_FSIZE, &old)
 	}
 	out.Hits = verifhook.Snapshot()
+	out.HitsN = map[string]int64{}
+	for k, v := range out.Hits {
+		if d := v - before[k]; d > 0 {
+			out.HitsN[k] = d
+		}
+	}
+	out.Injected = int(injected.Load())
 	return out, nil
 }
 
@@ -543,7 +610,10 @@ func monitorGenericFaults(c *core.Ctx) {
 		rlimit uint64
 		hasP   bool
 		i      int
+		curLen int // length of the filler of the new cursor (default 3000)
 	}
+	// real short writes of a large value: limits at the start, around 64 KiB / 128 KiB and one byte before the end of a > 200 kB file
+	bigLimits := []uint64{1, 4096, 65535, 65536, 65537, 131072, 131073, 199999, 200000}
 	var cases []gcase
 	for i := 0; i < n; i++ {
 		hasP := i%4 != 3
@@ -555,6 +625,7 @@ func monitorGenericFaults(c *core.Ctx) {
 			gcase{name: "crash@offset.generic.afterWrite", hooks: fmt.Sprintf("offset.generic.afterWrite=crash:%d", nth), hasP: hasP, i: i},
 			gcase{name: "crash@offset.generic.beforeRename", hooks: fmt.Sprintf("offset.generic.beforeRename=crash:%d", nth), hasP: hasP, i: i},
 			gcase{name: "shortwrite(EFBIG)", rlimit: 1024, hasP: hasP, i: i},
+			gcase{name: "shortwrite(EFBIG)", rlimit: bigLimits[i%len(bigLimits)], hasP: hasP, i: i, curLen: 200000},
 		)
 	}
 	core.ParallelFor(len(cases), 16, func(k int) {
@@ -564,7 +635,7 @@ func monitorGenericFaults(c *core.Ctx) {
 		defer os.RemoveAll(dir)
 		path := filepath.Join(dir, "journal-offsets.yaml")
 		P := &genericInfo{Offset: rng.Int63n(1e6), Cursor: "s=aa;i=" + fmt.Sprint(rng.Intn(1e6))}
-		N := &genericInfo{Offset: P.Offset + 1, Cursor: "s=aa;i=" + fmt.Sprint(rng.Intn(1e6)) + ";x=" + strings.Repeat("c", 3000)}
+		N := &genericInfo{Offset: P.Offset + 1, Cursor: "s=aa;i=" + fmt.Sprint(rng.Intn(1e6)) + ";x=" + strings.Repeat("c", max(gc.curLen, 3000))}
 		in := gsave2In{Path: path, N: N, Rlimit: gc.rlimit}
 		if gc.hasP {
 			in.P = P
@@ -586,7 +657,7 @@ func monitorGenericFaults(c *core.Ctx) {
 		if !crash {
 			var out map[string]string
 			_ = json.Unmarshal(res.Out, &out)
-			// effective by construction: the value is > 3000 bytes, the limit is 1024
+			// effective by construction: the value is > 3000 bytes and the limit is 1024, or > 200000 bytes and the limit is <= 200000
 			if !res.Completed {
 				c.Inconclusive("generic short write child failed")
 				return
@@ -617,7 +688,10 @@ func monitorGenericFaults(c *core.Ctx) {
 		}
 		c.Eval(1)
 		c.Count("generic.fault."+gc.name+"->"+which, 1)
-		c.Nontrivial(fmt.Sprintf("gfault|%s|%v|%s", gc.name, gc.hasP, which))
+		c.Nontrivial(fmt.Sprintf("gfault|%s|%v|%s|%s", gc.name, gc.hasP, which, sizeClass(int64(gc.rlimit))))
+		if gc.curLen > 3000 {
+			c.Count("generic.fault.shortwrite_large_value", 1)
+		}
 		bad := which == "unloadable" || which == "neither" || (!crash && which != "P")
 		if bad {
 			violOnce(c, fmt.Sprintf("offset.Offset.Save %s: offsets file afterwards is %s", gc.name, describeWhich(which)),
